@@ -1,8 +1,243 @@
 import BddVerif.Drive.Util
-/-! Driver for C11 — stub, to be written. -/
+import BddVerif.Model.Select
+/-!
+Driver for C11: replays each observed case through the model of the selectors (`Model/Select.lean`) and
+evaluates the property's own predicate on what the Rust code returned, by brute force and independently of
+the model: the satisfying set from the truth table (`ttOf`, n ≤ 12; index order = the derived `Ord` of
+`BddValuation`, variable 0 most significant, `false < true`), the list of all root-to-one paths of the array
+(any n), single evaluations for n > 12.
+-/
 namespace B.Drive.C11
-open B B.Drive
+open B B.Drive B.Select
 
-def handle (key : String) (_ins _obs : List String) : Verdict := Verdict.bad ("key " ++ key)
+def maxTT : Nat := 12
+
+/-! ### rendering of model results in the harness's text forms -/
+
+def showVal : Sel Val → String
+  | .panic => "panic"
+  | .none => "none"
+  | .some v => showBits v
+
+def clauseChar : Option Bool → Char
+  | some true => '1'
+  | some false => '0'
+  | none => '-'
+
+/-- `fmt_partial`: `01-` over `n` variables, then `;idx=val` for fixed variables `≥ n` -/
+def showClauseN (n : Nat) (c : Clause) : String :=
+  let head := String.ofList ((List.range n).map fun i => clauseChar (getC c i))
+  let head := if head.isEmpty then "~" else head
+  let extra := (List.range (c.length - n)).map fun j =>
+    match getC c (n + j) with
+    | some b => s!";{n + j}={if b then 1 else 0}"
+    | none => ""
+  head ++ String.join extra
+
+def showClause (n : Nat) : Sel Clause → String
+  | .panic => "panic"
+  | .none => "none"
+  | .some c => showClauseN n c
+
+def showOB : Option Bool → String
+  | none => "panic"
+  | some true => "1"
+  | some false => "0"
+
+def modelSel (A : Arr) : List String :=
+  let n := numVars A
+  [showVal (satWitness A), showVal (firstValuation A), showVal (lastValuation A),
+   showVal (mostPositiveValuation A), showVal (mostNegativeValuation A),
+   showClause n (firstClause A), showClause n (lastClause A),
+   showClause n (mostFixedClause A), showClause n (mostFreeClause A),
+   showClause n (necessaryClause A), showOB (isClause A), showOB (isValuation A)]
+
+def modelRand (A : Arr) (fl : List Bool) : List String :=
+  [showVal (randomValuation A fl), showClause (numVars A) (randomClause A fl)]
+
+/-! ### brute-force oracles (independent of the model) -/
+
+/-- all root-to-one paths as `01-` strings over `n` variables, low branch first; `fuel` bounds the depth -/
+def pathsFrom (A : Arr) (n : Nat) : Nat → Nat → List (Nat × Bool) → List String
+  | 0, _, _ => []
+  | fuel + 1, p, acc =>
+    if p == 0 then []
+    else if p == 1 then
+      [String.ofList ((List.range n).map fun i =>
+        match acc.find? (·.1 == i) with
+        | some (_, true) => '1'
+        | some (_, false) => '0'
+        | none => '-')]
+    else
+      let nd := A[p]?.getD default
+      pathsFrom A n fuel nd.low ((nd.var, false) :: acc) ++ pathsFrom A n fuel nd.high ((nd.var, true) :: acc)
+
+def allPaths (A : Arr) : List String :=
+  if A.size < 2 then [] else
+  let n := numVars A
+  (pathsFrom A n (n + 2) (root A) []).map fun s => if s.isEmpty then "~" else s
+
+def fixedCount (s : String) : Nat := (s.toList.filter fun c => c == '0' || c == '1').length
+
+/-- first position where two equally long clause strings differ -/
+def firstDiff : List Char → List Char → Option (Char × Char)
+  | a :: as, b :: bs => if a == b then firstDiff as bs else some (a, b)
+  | _, _ => none
+
+/-- `c` is a path and takes branch `want` wherever it diverges from another path -/
+def extremalPath (paths : List String) (c : String) (want : Char) : Bool :=
+  paths.contains c && paths.all fun d =>
+    match firstDiff c.toList d.toList with
+    | none => true
+    | some (x, y) => x == want && (y == '0' || y == '1') && y != want
+
+def popcount (n i : Nat) : Nat := ((List.range n).filter fun k => valOfIndex n i k).length
+
+def bitsOfIndex (n i : Nat) : String := showBits ((List.range n).map (valOfIndex n i))
+
+structure Oracle where
+  n : Nat
+  sat : List Nat          -- indices of the satisfying valuations, increasing
+  paths : List String
+
+def argBest (xs : List Nat) (score : Nat → Nat) : Option Nat :=
+  -- the FIRST element with the maximal score
+  xs.foldl (fun best i => match best with
+    | none => some i
+    | some j => if score i > score j then some i else some j) none
+
+def expectOpt (got : String) (want : Option String) (clause : String) : Option String :=
+  match want with
+  | none => if got == "none" then none else some (clause ++ ":not-none-on-contradiction")
+  | some w => if got == w then none else some clause
+
+def firstFail (xs : List (Option String)) : Option String := xs.findSome? id
+
+/-- the literals shared by all satisfying valuations, as a `01-` string -/
+def necessaryOf (n : Nat) (sat : List Nat) : String :=
+  let s := String.ofList ((List.range n).map fun k =>
+    if sat.all (fun i => valOfIndex n i k) then '1'
+    else if sat.all (fun i => !valOfIndex n i k) then '0' else '-')
+  if s.isEmpty then "~" else s
+
+/-- predicate on the deterministic selectors, truth-table part (n ≤ 12) -/
+def checkSelTT (o : Oracle) (obs : List String) : Option String :=
+  match obs with
+  | [wit, fv, lv, mp, mn, _fc, _lc, _mfx, _mfr, nec, isc, isv] =>
+    let n := o.n
+    let sat := o.sat
+    if sat.isEmpty then
+      firstFail ([wit, fv, lv, mp, mn, nec].map fun x => if x == "none" then none else some "none-on-contradiction") |>.orElse fun _ =>
+      firstFail [if isc == "0" then none else some "is_clause-on-contradiction",
+                 if isv == "0" then none else some "is_valuation-on-contradiction"]
+    else
+      let satBits := sat.map (bitsOfIndex n)
+      let nFixed := fixedCount (necessaryOf n sat)
+      firstFail [
+        if satBits.contains wit then none else some "sat_witness-not-satisfying",
+        expectOpt fv (sat.head?.map (bitsOfIndex n)) "first_valuation-not-least",
+        expectOpt lv (sat.getLast?.map (bitsOfIndex n)) "last_valuation-not-greatest",
+        expectOpt mp ((argBest sat (popcount n)).map (bitsOfIndex n)) "most_positive-not-max-or-not-least",
+        expectOpt mn ((argBest sat (fun i => n - popcount n i)).map (bitsOfIndex n)) "most_negative-not-max-or-not-least",
+        expectOpt nec (some (necessaryOf n sat)) "necessary_clause-not-exact",
+        if isc == (if sat.length == 2 ^ (n - nFixed) then "1" else "0") then none else some "is_clause-wrong",
+        if isv == (if sat.length == 1 then "1" else "0") then none else some "is_valuation-wrong"]
+  | _ => some "arity"
+
+/-- predicate on the deterministic selectors, path part (any n) and single evaluations -/
+def checkSelPaths (A : Arr) (o : Oracle) (obs : List String) : Option String :=
+  match obs with
+  | [wit, fv, lv, mp, mn, fc, lc, mfx, mfr, nec, _isc, _isv] =>
+    if o.paths.isEmpty then
+      firstFail ([wit, fv, lv, mp, mn, fc, lc, mfx, mfr, nec].map fun x =>
+        if x == "none" then none else some "none-on-contradiction")
+    else
+      let counts := o.paths.map fixedCount
+      let maxF := counts.foldl max 0
+      let minF := counts.foldl min o.n
+      let satisfies (x : String) (what : String) : Option String :=
+        if x == "none" || x == "panic" then some (what ++ "-missing")
+        else if (parseBits x).length == o.n && evalArr A (valOfBits (parseBits x)) then none
+        else some (what ++ "-not-satisfying")
+      firstFail [
+        satisfies wit "sat_witness", satisfies fv "first_valuation", satisfies lv "last_valuation",
+        satisfies mp "most_positive", satisfies mn "most_negative",
+        if extremalPath o.paths fc '0' then none else some "first_clause-not-a-path-or-not-first",
+        if extremalPath o.paths lc '1' then none else some "last_clause-not-a-path-or-not-last",
+        if o.paths.contains mfx && fixedCount mfx == maxF then none else some "most_fixed-not-a-path-or-not-max",
+        if o.paths.contains mfr && fixedCount mfr == minF then none else some "most_free-not-a-path-or-not-min"]
+  | _ => some "arity"
+
+def checkRand (A : Arr) (o : Oracle) (obs : List String) : Option String :=
+  match obs with
+  | [rv, rc] =>
+    if o.paths.isEmpty then
+      firstFail ([rv, rc].map fun x => if x == "none" then none else some "none-on-contradiction")
+    else
+      firstFail [
+        if rv != "none" && rv != "panic" && (parseBits rv).length == o.n && evalArr A (valOfBits (parseBits rv)) then none
+          else some "random_valuation-not-satisfying",
+        if o.paths.contains rc then none else some "random_clause-not-a-path"]
+  | _ => some "arity"
+
+def oracleOf (A : Arr) : Oracle :=
+  let n := numVars A
+  let sat := if n ≤ maxTT then
+      let tt := ttOf A n
+      (List.range (2 ^ n)).filter fun i => tt[i]!
+    else []
+  { n, sat, paths := allPaths A }
+
+def hasGap (A : Arr) : Bool :=
+  A.size > 2 && ((A[root A]?.getD default).var > 0 ||
+    (List.range A.size).any fun p => p ≥ 2 &&
+      let nd := A[p]?.getD default
+      ((A[nd.low]?.getD default).var > nd.var + 1 && nd.low != 0) ||
+      ((A[nd.high]?.getD default).var > nd.var + 1 && nd.high != 0))
+
+def tagsOf (key : String) (A : Arr) : List String :=
+  let n := numVars A
+  [key, if A.size ≤ 2 then "const" else "nonconst", if n ≤ maxTT then "tt" else "big",
+   if hasGap A then "gap" else "nogap", s!"sz{Nat.log2 (A.size + 1)}"]
+
+def handle (key : String) (ins obs : List String) : Verdict :=
+  match key, ins with
+  | "C11.sel", [a] =>
+    match parseArr? a with
+    | some A =>
+      if !isCanon A then Verdict.bad "input not canonical (harness bug)" else
+      let model := modelSel A
+      let o := oracleOf A
+      let fail := firstFail [checkSelPaths A o obs, if o.n ≤ maxTT then checkSelTT o obs else none]
+      { agree := model == obs, model := " ".intercalate model, fail, nontrivial := A.size > 2,
+        tags := tagsOf "sel" A ++ (match obs with
+          | [_, _, _, _, _, _, _, _, _, _, isc, isv] => [if isc == "1" then "cube" else "noncube", if isv == "1" then "single" else "nonsingle"]
+          | _ => []) }
+    | none => Verdict.bad "args"
+  | "C11.rand", [a, f] =>
+    match parseArr? a with
+    | some A =>
+      if !isCanon A then Verdict.bad "input not canonical (harness bug)" else
+      let fl := parseBits f
+      let model := modelRand A fl
+      let o : Oracle := { n := numVars A, sat := [], paths := allPaths A }
+      { agree := model == obs, model := " ".intercalate model, fail := checkRand A o obs, nontrivial := A.size > 2,
+        tags := tagsOf "rand" A ++ [if fl.length < numVars A then "shortflips" else "flips"] }
+    | none => Verdict.bad "args"
+  | "C11.nc", [a] =>
+    -- non-canonical input: the property makes no claim, only the model must follow the code (panics included)
+    match parseArr? a with
+    | some A =>
+      let model := modelSel A
+      { agree := model == obs, model := " ".intercalate model, fail := none, nontrivial := false,
+        tags := ["nc", if obs.contains "panic" then "panic" else "nopanic"] }
+    | none => Verdict.bad "args"
+  | "C11.ncrand", [a, f] =>
+    match parseArr? a with
+    | some A =>
+      let model := modelRand A (parseBits f)
+      { agree := model == obs, model := " ".intercalate model, fail := none, nontrivial := false, tags := ["ncrand"] }
+    | none => Verdict.bad "args"
+  | _, _ => Verdict.bad ("key " ++ key)
 
 end B.Drive.C11
